@@ -408,10 +408,80 @@ let gate_oracle_cmd () =
      done
    with End_of_file -> ())
 
+
+(* ---- C08: is an observed call/return history of the scheduler a linearisation accepted by the queue LTS? ----
+   history events, in log order:  (call C post T) (ret C post T) (call C stop) (ret C stop) (start T) (end T)
+   final: waiting | exited | running.  Client operations take effect atomically somewhere between their call
+   and their return; the worker's pop takes effect somewhere between its previous event and the `start`
+   record of the task.  Depth-first search over the possible orders, memoised. *)
+type qev = QCall of int * qop | QRet of int * qop | QStart of int | QEnd of int
+
+let queue_accept (evs : qev array) (final : string) : bool =
+  let n = Array.length evs in
+  let seen : (string, unit) Hashtbl.t = Hashtbl.create 1024 in
+  (* state: position, pending client ops, LTS state, is the running task's start record still to come? *)
+  let rec go pos (pending : (int * qop) list) (st : qst) (unobs : bool) : bool =
+    let key = Marshal.to_string (pos, List.sort compare pending, st, unobs) [] in
+    if Hashtbl.mem seen key then false
+    else begin
+      Hashtbl.replace seen key ();
+      (* (a) linearise one pending client operation now *)
+      List.exists (fun (c, o) -> go pos (List.filter (fun x -> x <> (c, o)) pending) (qstep st o) unobs) pending
+      (* (b) the worker pops early (its start record comes later) *)
+      || (not unobs && (match st.q_worker with WIdle | WWaiting -> true | _ -> false) &&
+          (let st1 = qstep (qstep st QWake) QCheck in
+           match st1.q_worker with WRunning _ -> go pos pending st1 true | _ -> false))
+      (* (c) consume the next recorded event *)
+      || (if pos >= n then
+            pending = [] && not unobs &&
+            (let rec settle s k = if k = 0 then s else match s.q_worker with WIdle -> settle (qstep s QCheck) (k - 1) | _ -> s in
+             let s = settle st 3 in
+             match s.q_worker, final with
+             | WWaiting, "waiting" -> true
+             | WExited, "exited" -> true
+             | WRunning _, "running" -> true
+             | _, _ -> false)
+          else match evs.(pos) with
+            | QCall (c, o) -> go (pos + 1) ((c, o) :: pending) st unobs
+            | QRet (c, o) -> if List.mem (c, o) pending then false else go (pos + 1) pending st unobs
+            | QStart t ->
+                if unobs then (match st.q_worker with WRunning t' when int_of_nat t' = t -> go (pos + 1) pending st false | _ -> false)
+                else (let st1 = qstep (qstep st QWake) QCheck in
+                      match st1.q_worker with WRunning t' when int_of_nat t' = t -> go (pos + 1) pending st1 false | _ -> false)
+            | QEnd t ->
+                (match st.q_worker with
+                 | WRunning t' when int_of_nat t' = t && not unobs -> go (pos + 1) pending (qstep st QDone) false
+                 | _ -> false))
+    end in
+  go 0 [] q0 false
+
+let queue_accept_cmd () =
+  (try
+     while true do
+       let line = input_line stdin in
+       if String.length line > 0 && line.[0] = '(' then begin
+         match parse_sx line with
+         | [L (A "hist" :: A final :: evs)] ->
+             let conv = function
+               | L [A "call"; c; A "post"; t] -> QCall (atom_int c, QPost (atom_nat t))
+               | L [A "ret"; c; A "post"; t] -> QRet (atom_int c, QPost (atom_nat t))
+               | L [A "call"; c; A "stop"] -> QCall (atom_int c, QStop)
+               | L [A "ret"; c; A "stop"] -> QRet (atom_int c, QStop)
+               | L [A "start"; t] -> QStart (atom_int t)
+               | L [A "end"; t] -> QEnd (atom_int t)
+               | x -> failwith ("bad queue event " ^ sx_to_string x) in
+             (try print_endline (if queue_accept (Array.of_list (List.map conv evs)) final then "ok" else "fail")
+              with e -> print_endline ("fail exception " ^ Printexc.to_string e))
+         | _ -> print_endline "fail unreadable"
+       end
+     done
+   with End_of_file -> ())
+
 let () =
   match Array.to_list Sys.argv with
   | _ :: "run-seq" :: fuel :: _ -> run_seq (int_of_string fuel)
   | _ :: "oracle" :: name :: sf :: obf :: _ -> oracle name sf obf
   | _ :: "gate-explore" :: _ -> gate_explore ()
   | _ :: "gate-oracle" :: _ -> gate_oracle_cmd ()
+  | _ :: "queue-accept" :: _ -> queue_accept_cmd ()
   | _ -> prerr_endline "usage: driver run-seq FUEL < scenarios"; exit 2
